@@ -191,6 +191,10 @@ def harness_judge(sc, o):
             return "route %d: %d of %d messages delivered although the router kept running" % (r, len(got), n)
         if sc["kinds"][r - 1] == "xbeam" and not stopped and rt["xdisc"] is not True:
             return "route %d: crossbeam receiver not disconnected after its channel closed" % r
+    if sc.get("dropproxy") and o.get("stopped_after_drop") is False:
+        return "3 s after the proxy was dropped callbacks are still alive / downstream receivers still connected (the router has not stopped)"
+    if sc["stop"] != "none" and o.get("fd_delta", 0) > 0:
+        return "a stopped router still holds %d descriptor(s) 2 s later" % o["fd_delta"]
     for a in o["after_shutdown"]:
         if not a["disconnected"]:
             return "route %d: downstream crossbeam receiver still connected right after shutdown() returned" % a["r"]
